@@ -567,6 +567,9 @@ func (c *L3RouteResolver) visitAllRoutes(trie *ip.CIDRTrie, v func(route nodenam
 		if len(ri.Refs) > 0 {
 			// From a Ref.
 			nnr.nodeName = ri.Refs[0].NodeName
+		} else if len(ri.Host.NodeNames) > 0 {
+			// A node's own address; flush() attributes the route to that node.
+			nnr.nodeName = ri.Host.NodeNames[0]
 		} else if len(ri.Blocks) > 0 {
 			// From IPAM.
 			nnr.nodeName = ri.Blocks[0].NodeName
